@@ -7,13 +7,17 @@ func init() {
 		ID: "C02",
 		Profile: func(tier string, r *Rng) Profile {
 			p := Profile{Name: "c02-hostile", MinTx: 2, MaxTx: 7, Equivocate: 0.01, Hostile: 0.25, VoteFault: 0.08, GapBig: 0.08, Gov: true, GovHalt: true}
-			switch r.Pick(4) {
+			switch r.Pick(5) {
+			case 4: // the team votes on a dispute and then hands its role on before the vote ends
+				p.Fragments = []string{"teamRotation"}
 			case 0: // time-based rewards flowing, two deposit rounds closing together
 				p.Fragments = []string{"mintInit", "depositPair"}
 			case 1:
 				p.Fragments = []string{"mintInit", "depositExpiryTipped"}
 			case 2:
 				p.Fragments = []string{"mintInit"}
+			case 3: // a minimum stake far below one token, a reporter whose stake is worth no power
+				p.Fragments = []string{"dustReporter"}
 			}
 			return p
 		},
@@ -28,9 +32,18 @@ func init() {
 	Register(&PropDef{
 		ID: "C05",
 		Profile: func(tier string, r *Rng) Profile {
-			return Profile{Name: "c05-stake", MinTx: 3, MaxTx: 8, Equivocate: 0.02, Downtime: 0.03, Hostile: 0.08, VoteFault: 0.03, GapBig: 0.06, Gov: false,
+			p := Profile{Name: "c05-stake", MinTx: 3, MaxTx: 8, Equivocate: 0.02, Downtime: 0.03, Hostile: 0.08, VoteFault: 0.03, GapBig: 0.06, Gov: false,
 				W: map[string]float64{"delegate": 7, "undelegate": 5, "redelegate": 3, "cancelUnbond": 1.5, "proposeDispute": 6, "addFee": 4, "vote": 8,
 					"withdrawFeeRefund": 4, "withdrawTip": 5, "createValidator": 1, "privileged": 0.1, "registerSpec": 0.1, "requestAttest": 0.2, "withdrawTokens": 0.3, "claimDeposits": 0.1}}
+			// a third of the cases: stake that backed a report is undelegated AND redelegated (or redelegated to two
+			// validators) before the report is disputed
+			switch r.Pick(6) {
+			case 0:
+				p.Fragments = []string{"movedStakeUnbondRedelegate"}
+			case 1:
+				p.Fragments = []string{"movedStakeTwoDestinations"}
+			}
+			return p
 		},
 		Monitors: func(st *Stats) []Monitor { return []Monitor{NewC05Monitor(st)} },
 		Cases:    tierMap(32, 128),
@@ -87,7 +100,7 @@ func c04Fragments(r *Rng) []string {
 
 // c14Fragments: the three well-formed deposits plus two of the hostile ones, chosen per case
 func c14Fragments(r *Rng) []string {
-	hostile := []string{"depositTipAboveAmount", "depositTipEqualsAmount", "depositBadRecipient", "depositForeignPrefix", "depositSubUnit", "depositHuge", "depositTruncated", "depositZero", "depositModuleRecipient"}
+	hostile := []string{"depositTipAboveAmount", "depositTipEqualsAmount", "depositBadRecipient", "depositForeignPrefix", "depositSubUnit", "depositHuge", "depositTruncated", "depositZero", "depositModuleRecipient", "depositWrap64"}
 	i := r.Pick(len(hostile))
 	j := (i + 1 + r.Pick(len(hostile)-1)) % len(hostile)
 	return []string{"deposit1", hostile[i], "deposit2", hostile[j], "deposit3"}
@@ -118,7 +131,7 @@ func init() {
 				// directed fragments in a third of the cases: a dispute carried through six rounds (C12, C13), a backer
 				// who undelegated everything in two steps before the dispute (C11)
 				if r.Chance(0.34) {
-					p.Fragments = map[string][]string{"C11": {"twoUnbondings"}, "C12": {"deepRounds"}, "C13": {"deepRounds"}}[id]
+					p.Fragments = map[string][]string{"C11": {[]string{"twoUnbondings", "movedStakeTwoDestinations", "movedStakeUnbondRedelegate", "unbondedValidatorDispute"}[r.Pick(4)]}, "C12": {"deepRounds"}, "C13": {"deepRounds"}}[id]
 				}
 				return p
 			},
@@ -157,6 +170,8 @@ func init() {
 			p.Fragments = []string{[]string{"depositExpiry", "depositExpiryTipped"}[r.Pick(2)]} // reports exactly at the end of a 2000-block deposit window
 		} else if r.Chance(0.3) {
 			p.Fragments = []string{"cyclelistMidRound"} // the cycle list is replaced while the scheduled round holds reports
+		} else if r.Chance(0.4) {
+			p.Fragments = []string{"raisedMinimum"} // a minimum stake that is not a whole number of tokens, a reporter just below it
 		}
 		return p
 	},
@@ -238,9 +253,9 @@ func init() {
 		// what an honest proposer builds from a valid extended commit is accepted by every honest validator: a history
 		// that ends because PrepareProposal failed or ProcessProposal rejected the honest proposal violates C17
 		DeathModules: []string{"prepare", "process"},
-		Opts:   func() AppOpts { return AppOpts{PanicLog: &PanicLog{}} },
-		Setup:  func(c *Chain, st *Stats, r *Rng) { NewProposalLab(st, r, 6).Attach(c) },
-		Finish: func(c *Chain, g *Gen, mons []Monitor) { finalizeUndecodable(c) }})
+		Opts:         func() AppOpts { return AppOpts{PanicLog: &PanicLog{}} },
+		Setup:        func(c *Chain, st *Stats, r *Rng) { NewProposalLab(st, r, 6).Attach(c) },
+		Finish:       func(c *Chain, g *Gen, mons []Monitor) { finalizeUndecodable(c) }})
 }
 
 func init() {
@@ -278,7 +293,15 @@ func init() {
 		Profile: func(tier string, r *Rng) Profile {
 			return Profile{Name: "c19-authority", MinTx: 3, MaxTx: 9, Hostile: 0.2, VoteFault: 0.02, GapBig: 0.06, Gov: true, Fragments: []string{"mintInit"},
 				W: map[string]float64{"privileged": 8, "updateTeam": 3, "registerSpec": 4, "removeSelector": 5, "withdrawFeeRefund": 5, "claimReward": 4, "withdrawTip": 5, "unjailReporter": 4,
-					"selectReporter": 5, "switchReporter": 4, "proposeDispute": 5, "addFee": 4, "vote": 6, "govProposal": 1.5, "govVote": 5, "send": 3, "delegate": 5, "undelegate": 3, "redelegate": 2}}
+					"selectReporter": 5, "switchReporter": 4, "proposeDispute": 5, "addFee": 4, "vote": 6, "govProposal": 1.5, "govVote": 5, "send": 3, "delegate": 5, "undelegate": 3, "redelegate": 2, "multiStake": 3, "submit": 20}}
+		},
+		World: func(cfg *WorldCfg, r *Rng) {
+			if r.Chance(0.3) {
+				// few validator slots, many validators: selectors with more delegations than the validator cap
+				cfg.MaxValidators = uint32(3 + r.Pick(3))
+				cfg.NumVals = 5
+				cfg.ExtraVals = 3
+			}
 		},
 		Monitors: func(st *Stats) []Monitor { return []Monitor{NewC19Monitor(st)} }, Cases: tierMap(48, 160), Blocks: tierMap(250, 600)})
 }
